@@ -62,7 +62,7 @@ class Check(AddCheck):
             for j in range(4):
                 doc = gens.random_story_message(rng, sids, 900 + j, fresh) if rng.random() < 0.5 else \
                     gens.random_item_message(rng, sids, items, 900 + j, fresh)
-                yield {'ro': state, 'msg': to_text(doc), 'meta': {'cls': doc[3][0].tag, 'n': len(sids), 'layout': 'history'}}
+                yield {'ro': state, 'msg': to_text(doc), 'meta': {'cls': doc[3].tag, 'n': len(sids), 'layout': 'history'}}
 
     def obs(self, o):
         if 'classerr' in o:
